@@ -30,6 +30,16 @@ def run(chk):
             if r[0] != "ok":
                 return "a manifest built by add calls with a valid compose section could not be written: %r" % (r,)
             (text, back), built = r[1], r[2]
+            if kind == "rpms":
+                for op in c["ops"]:
+                    if not (isinstance(op[2], str) and isinstance(op[3], str) and isinstance(op[5], str)):
+                        continue
+                    for skey, tab in built.get(op[0], {}).get(op[1], {}).items() if isinstance(op[0], str) and isinstance(op[1], str) else []:
+                        for rkey, ent in tab.items():
+                            last = [o for o in c["ops"] if o[:2] == op[:2] and isinstance(o[2], str) and o[3] == ent.get("path") and o[5] == ent.get("category")]
+                            if last and all((o[4].lower() if isinstance(o[4], str) else o[4]) != ent.get("sigkey") for o in last):
+                                return "entry %r/%r carries the signing key %r; the adds with its path and category gave %r" % (
+                                    skey, rkey, ent.get("sigkey"), [o[4] for o in last])
             if back[0] != "ok":
                 return "the written manifest could not be read back: %r" % (back,)
             comp2, payload2, again = back[1]
